@@ -11,7 +11,8 @@ Open Scope nat_scope.
    Acquire fence before the free - the condition under which the sequentially consistent
    interleavings of the model are the executions of the code on weakly ordered hardware too) *)
 Theorem C20_facts : retain_is_rmw = true /\ release_is_rmw = true /\ release_frees_on = 1 /\
-                    arm_locks_before_call = true /\ arm_holds_lock_during_call = true /\ release_synchronizes = true.
+  arm_locks_before_call = true /\ arm_holds_lock_during_call = true /\ release_synchronizes = true /\
+  downcast_closure_under_lock = true.
 Proof. exact facts. Qed.
 Print Assumptions C20_facts.
 
@@ -24,6 +25,21 @@ Theorem C20_mutual_exclusion : forall n s i j a b, reachable n s ->
   at_ (get (ths s) i) = InBody a -> at_ (get (ths s) j) = InBody b -> i = j.
 Proof. exact mutual_exclusion. Qed.
 Print Assumptions C20_mutual_exclusion.
+
+(* the generated downcast_concrete runs the caller's closure with the implementation to itself: no
+   method body and no other closure runs while it does, and the state it saw when it started is still
+   the state (regenerated fact downcast_closure_under_lock: the closure is called before the guard
+   is dropped) *)
+Theorem C20_downcast_closure_is_exclusive : forall n s i j, reachable n s ->
+  i < List.length (ths s) -> j < List.length (ths s) ->
+  holds (at_ (get (ths s) i)) = true -> holds (at_ (get (ths s) j)) = true -> i = j.
+Proof. exact look_is_exclusive. Qed.
+Print Assumptions C20_downcast_closure_is_exclusive.
+
+Theorem C20_downcast_closure_sees_stable_state : forall n s i seen, reachable n s -> i < List.length (ths s) ->
+  at_ (get (ths s) i) = InLook seen -> seen = impl s /\ seen = completed s.
+Proof. exact look_sees_stable_state. Qed.
+Print Assumptions C20_downcast_closure_sees_stable_state.
 
 Theorem C20_sees_completed_effects : forall n s i a, reachable n s -> i < List.length (ths s) ->
   at_ (get (ths s) i) = InBody a -> a = completed s.
